@@ -150,13 +150,13 @@ struct Alpha {
     }
     // every polynomial with <= 2 terms, exponents <= maxe, over every variable set; single terms use coefficient
     // indices [0,n1), two-term polynomials [0,n2)
-    void build(int maxe, int n1, int n2)
+    void build(int maxe, int n1, int n2, int mine = 0)
     {
         for (unsigned mask = 0; mask < 8; mask++) {
             std::vector<Mono> monos;
-            for (int ex = 0; ex <= ((mask & 1) ? maxe : 0); ex++)
-                for (int ey = 0; ey <= ((mask & 2) ? maxe : 0); ey++)
-                    for (int ez = 0; ez <= ((mask & 4) ? maxe : 0); ez++)
+            for (int ex = ((mask & 1) ? mine : 0); ex <= ((mask & 1) ? maxe : 0); ex++)
+                for (int ey = ((mask & 2) ? mine : 0); ey <= ((mask & 2) ? maxe : 0); ey++)
+                    for (int ez = ((mask & 4) ? mine : 0); ez <= ((mask & 4) ? maxe : 0); ez++)
                         monos.push_back(Mono{ex, ey, ez});
             push(mask, {});
             for (auto &m : monos)
@@ -172,6 +172,7 @@ struct Alpha {
 };
 static Alpha<MIntPoly> AI;
 static Alpha<MExprPoly> AE;
+static Alpha<MExprPoly> AN; // MExprPoly with NEGATIVE exponents (signed exponent vectors): pair operations only
 static bool pow0_bad[2] = {false, false};
 
 // ---------------------------------------------------------------- lib -> model
@@ -214,7 +215,7 @@ static bool to_model(const P &p, MM<typename Tr<P>::K> &out, unsigned &mask, Ctx
         }
         Mono m{0, 0, 0};
         for (size_t i = 0; i < idx.size(); i++) {
-            if ((long long)kv.first[i] < 0 || (long long)kv.first[i] > 1000000) {
+            if ((long long)kv.first[i] < -1000000 || (long long)kv.first[i] > 1000000) {
                 why = "exponent out of range: " + std::to_string((long long)kv.first[i]);
                 return false;
             }
@@ -759,6 +760,10 @@ int main(int argc, char **argv)
     };
     AE.coef = {EXP(one), EXP(A), EXP(neg(A)), EXP(add(A, one))};
     AE.build(1, thorough ? 4 : 3, thorough ? 3 : 2);
+    // Laurent monomials: exponents in {-1,0,1} (a single term whose exponents cancel in the sum, x*y**-1, is what the seeded
+    // change C22 -- "constant" fast path of operator*= testing the exponent SUM -- needed; the non-negative alphabet missed it)
+    AN.coef = AE.coef;
+    AN.build(1, 2, 1, -1);
     build_expressions(thorough);
     build_special(AI);
     build_special(AE);
@@ -802,6 +807,24 @@ int main(int argc, char **argv)
     run_type(AE, states);
     if (!past_deadline())
         run_type(AI, states);
+    if (!past_deadline()) {
+        // Laurent MExprPoly: all ordered pairs x {add, sub, mul} only (eval/as_symbolic of negative exponents are not modelled)
+        const long long N = AN.S.size();
+        states += N;
+        CaseSet cs;
+        cs.name = "pairs-negexp:MExprPoly";
+        cs.n = N * N;
+        cs.counter_names = CN;
+        cs.hang_s = 300;
+        cs.desc = [&](long long i) {
+            return "MExprPoly(negative exponents) a = " + AN.S[i / N].m.str() + " over " + maskstr(AN.S[i / N].mask) + ", b = " + AN.S[i % N].m.str() + " over "
+                   + maskstr(AN.S[i % N].mask);
+        };
+        cs.crash_sig = [&](long long, const std::string &oc) { return "pairs-negexp:MExprPoly:" + oc; };
+        cs.body = [&](long long i, Ctx &c) { pair_body<MExprPoly>(AN, i, c); };
+        run_cases(cs);
+        run().counters["alphabet_MExprPoly_negative_exponents"] = N;
+    }
 
     Run &R = run();
     R.states = states;
@@ -813,7 +836,8 @@ int main(int argc, char **argv)
     R.counters["alphabet_expressions"] = EX.size();
     R.bound_completed = "MIntPoly: " + std::to_string(AI.S.size()) + " polynomials (all 8 variable sets <= {x,y,z}, <=2 terms, exponents <= " + (thorough ? "2" : "1")
                         + ", coefficients {1,-1,2} / {1,-1}), all ordered pairs (all 64 pairs of variable sets); MExprPoly: " + std::to_string(AE.S.size())
-                        + " polynomials (exponents <= 1, coefficients {1,a,-a,a+1}), all ordered pairs; " + std::to_string(EX.size())
+                        + " polynomials (exponents <= 1, coefficients {1,a,-a,a+1}), all ordered pairs; " + std::to_string(AN.S.size())
+                        + " Laurent MExprPoly (exponents in {-1,0,1}), all ordered pairs x {add,sub,mul}; " + std::to_string(EX.size())
                         + " expressions (depth<=2) x 2 types x 4 from_basic variants";
     R.rule = "every ordered pair of the polynomial alphabet (equal, nested, overlapping, disjoint, empty variable sets) x {add,sub,mul}; every polynomial x {from_dict with "
              "every listing order of the generators, neg, pow 0..3, eval at 3-4 points, as_symbolic, from_basic(as_symbolic)}; every expression x from_basic "
